@@ -1,5 +1,7 @@
 import DnpProofs.Lemmas.ArgBest
 import DnpProofs.Lemmas.Slice
+import DnpProofs.Lemmas.SliceBounds
+import DnpProofs.Lemmas.Cut
 import DnpProofs.Lemmas.ListAux
 set_option linter.unusedSectionVars false
 /-!
@@ -9,7 +11,7 @@ Coordinates live in an arbitrary linear order `κ`; `dist t x` is |t − x| in t
 arbitrary function here (the decision logic does not depend on it).
 -/
 namespace Dnp.C05
-open Np Dnp
+open Np Dnp Dnp.Data
 variable {κ : Type} [LinearOrder κ] [Inhabited κ] (dist : κ → κ → κ)
 
 /-- an in-range integer picks exactly that position (negative from the end) -/
@@ -130,5 +132,91 @@ theorem pinned_descending_wrong :
     (selToSlicePinnedRead d ltB c (.range 1 3)).positions 5 = [3, 4] ∧
     (selToSlicePinnedWrite d ltB c (.range 1 3)).positions 5 = [1, 2] ∧
     selPositions d ltB c (.range 1 3) = [1, 2] := by decide +kernel
+
+/-- a slice acts as in NumPy: whatever start / stop / (non-zero) step, every selected position lies on the axis -/
+theorem slice_on_axis (n : Nat) (start stop step : Option Int) (hst : step.getD 1 ≠ 0) :
+    ∀ p ∈ pySlice n start stop step, p < n := pySlice_lt n start stop step hst
+
+/-- every selector is turned into positions ON the axis (the zero-step slice is refused before) -/
+theorem selPositions_on_axis (c : List κ) (s : Sel κ) (hs : ∀ a b, s ≠ .slice a b (some 0)) :
+    ∀ p ∈ selPositions dist ltB c s, p < c.length := by
+  unfold selPositions PySl.positions
+  apply pySlice_lt
+  cases s with
+  | int i => simp only [selToSlice]; split <;> simp
+  | flt t => simp [selToSlice]
+  | tup1 t => simp [selToSlice]
+  | range lo hi =>
+    simp only [selToSlice]
+    split
+    · simp
+    · split <;> (split <;> simp)
+  | slice a b st =>
+    simp only [selToSlice]
+    cases st with
+    | none => simp
+    | some z =>
+      simp only [Option.getD_some, ne_eq]
+      intro hz; subst hz
+      exact hs a b rfl
+
+/-- `data[dim, selector, …]` (the first sentence of the property): values and every coordinate array are cut by the SAME
+    per-axis position lists, dimensions without a selector are untouched, and the element at result index `idx` is the
+    source element at the index obtained by looking each axis up in its own position list -/
+theorem getitem_spec {α : Type} [Inhabited α] {d r : Data κ α} {sels : List (String × Sel κ)} (h : d.Consistent)
+    (hr : d.getitem dist ltB sels = .ok r) :
+    ∃ pos : List (Option (List Nat)), pos.length = d.dims.length ∧ r = d.cut pos ∧
+      r.dims = d.dims ∧
+      r.coords = List.zipWith (fun (c : List κ) (p : Option (List Nat)) => match p with
+                        | none => c
+                        | some p => p.map (fun i => c.getD i default)) d.coords pos ∧
+      ∀ idx, InB idx r.values.shape →
+        InB (cutIdx 0 pos idx) d.values.shape ∧ r.values.get idx = d.values.get (cutIdx 0 pos idx) := by
+  unfold getitem at hr
+  split at hr
+  · cases hr
+  · split at hr
+    · cases hr
+    · rename_i _ hz
+      simp only [Except.ok.injEq] at hr
+      subst hr
+      set pos := d.dims.map (fun dim => (selFor sels dim).map (fun s => selPositions dist ltB (d.coord dim) s)) with hpos
+      have hlen : pos.length = d.dims.length := by simp [hpos]
+      have hval : CutValid 0 pos d.values.shape := by
+        intro j p hj i hi
+        simp only [Nat.zero_add]
+        by_cases hjl : j < d.dims.length
+        · simp only [hpos, List.getD_eq_getElem?_getD, List.getElem?_map, List.getElem?_eq_getElem hjl, Option.map_some,
+            Option.getD_some] at hj
+          cases hsf : selFor sels d.dims[j] with
+          | none => rw [hsf] at hj; simp at hj
+          | some s =>
+            rw [hsf] at hj
+            simp only [Option.map_some, Option.some.injEq] at hj
+            subst hj
+            -- the selector is one of those given, hence not a zero-step slice
+            have hsmem : ∃ q ∈ sels, q.2 = s := by
+              unfold selFor at hsf
+              cases hf : sels.reverse.find? (fun q => q.1 == d.dims[j]) with
+              | none => rw [hf] at hsf; simp at hsf
+              | some q =>
+                rw [hf] at hsf
+                simp only [Option.map_some, Option.some.injEq] at hsf
+                exact ⟨q, by simpa using List.mem_of_find?_eq_some hf, hsf⟩
+            obtain ⟨q, hq, hqs⟩ := hsmem
+            have hs0 : ∀ a b, s ≠ .slice a b (some 0) := by
+              intro a b he
+              apply hz
+              simp only [List.any_eq_true]
+              exact ⟨q, hq, by simp [hqs, he]⟩
+            have := selPositions_on_axis dist (d.coord d.dims[j]) s hs0 i hi
+            rw [coord_length h] at this
+            have hidx : d.index d.dims[j] = j := h.1.idxOf_getElem j hjl
+            simpa [ext, hidx] using this
+        · have : pos.getD j none = none := by
+            simp [hpos, List.getD_eq_getElem?_getD, List.getElem?_eq_none (by simpa using Nat.le_of_not_lt hjl)]
+          rw [this] at hj; cases hj
+      obtain ⟨h1, h2, h3⟩ := cut_spec h pos hlen hval
+      exact ⟨pos, hlen, rfl, h1, h2, h3⟩
 
 end Dnp.C05
